@@ -51,6 +51,7 @@ type Ctx struct {
 	nm             *Names
 	layoutMemo     *[2]bool // result of the layout evaluation (computed once per loaded tree)
 	escMemo        *bool
+	lcMemo         *bool
 }
 
 // LoadOpts selects the build configuration and an optional overlay.
